@@ -322,6 +322,9 @@ func c17Unlink(t *T) {
 	for _, fs := range []hackpadfs.FS{sut, ref} {
 		must(t, hackpadfs.Mkdir(fs, "d", 0755))
 		must(t, hackpadfs.WriteFullFile(fs, "d/f", []byte("0123456789"), 0644))
+		// siblings, so that moving or removing the directory takes several store calls
+		must(t, hackpadfs.WriteFullFile(fs, "d/a", []byte("a"), 0644))
+		must(t, hackpadfs.WriteFullFile(fs, "d/z", []byte("z"), 0644))
 	}
 	w := &handleWorld{t: t, kind: kind, sut: sut, ref: ref, path: "d/f", prop: "C17"}
 	defer w.closeAll()
@@ -342,9 +345,57 @@ func c17Unlink(t *T) {
 	}
 	n := 2 + c.Draw(8)
 	unlinked, faulted := false, false
+	// selfMode: a namespace operation was itself cut short by a store fault, so the os twin is no guide any more.
+	// What still holds without it: an operation on a handle (Write, WriteAt, Truncate, Chmod, Seek) never changes
+	// the set of names, whatever state the interrupted operation left behind
+	selfMode := false
 	for i := 0; i < n; i++ {
+		if selfMode {
+			o := genHandleOp(t, len(w.hs), 10, i+1, []string{"Write", "WriteAt", "Truncate", "Chmod", "Seek"}, []int{5, 2, 2, 1, 1})
+			h := w.hs[o.H]
+			before := nameSet(sut)
+			var got hResult
+			func() {
+				defer func() {
+					if r := recover(); r != nil {
+						t.Fail("panic", "C17:unlink:panic:"+o.Kind, fmt.Sprintf("%s through a handle after an interrupted namespace operation panicked: %v", o, r))
+					}
+				}()
+				got = callHandle(h.sut, o)
+			}()
+			after := nameSet(sut)
+			t.Logf("%d %s [%s] -> sut=%s (after an interrupted namespace operation)", i, o, flagString(h.flag), errClass(got.err))
+			if before != after {
+				t.Fail("resurrection", "C17:unlink:handle-op-changes-names-after-interrupted-op", fmt.Sprintf("step %d %s through a handle of d/f on %s changed the set of names (a store fault had cut a namespace operation short before):\nbefore:\n%s\nafter:\n%s", i, o, sutName(kind), before, after))
+			}
+			t.NonTrivial()
+			continue
+		}
 		if c.Chance(1, 3) || (!unlinked && i == n-2) {
 			o := nsOps[c.Draw(len(nsOps))]
+			if faultsLeft > 0 && c.Chance(1, 3) {
+				// the namespace operation itself is hit by a store fault (not applied to the twin)
+				faultsLeft--
+				plan := &faultPlan{t: t, at: c.Draw(8), kind: []string{"Set", "Get", ""}[c.Weighted(3, 2, 1)], armed: true}
+				store.plan = plan
+				got := applyOp(sut, o)
+				store.plan = nil
+				t.Logf("%d %s with a store fault armed -> sut=%s (fired: %v)", i, o, errClass(got.Err), plan.fired > 0)
+				if plan.fired > 0 {
+					t.Stat("c17:namespace-op-interrupted-by-store-fault")
+					selfMode = true
+					continue
+				}
+				// the fault did not fire: an ordinary step, the twin follows
+				want := applyOp(ref, o)
+				if (got.Err == nil) != (want.Err == nil) {
+					return
+				}
+				if want.Err == nil {
+					unlinked = true
+				}
+				continue
+			}
 			want := applyOp(ref, o)
 			got := applyOp(sut, o)
 			t.Logf("%d %s -> sut=%s os=%s", i, o, errClass(got.Err), errClass(want.Err))
